@@ -8,6 +8,7 @@ import (
 	"math/rand"
 	"os"
 	"path/filepath"
+	"regexp"
 	"sort"
 	"strings"
 	"syscall"
@@ -82,6 +83,9 @@ func CheckC09(tier string) {
 		}
 		rep.Eval("accept/" + s.Name)
 		rep.Count("valid_declarations_run", len(s.Injectors))
+		if hangVerdict(rep, "C09", p) {
+			continue
+		}
 		if !p.GenOK {
 			msg := ""
 			for _, g := range p.Gen {
@@ -259,4 +263,40 @@ func refusalClass(msg string) string {
 		}
 	}
 	return "other"
+}
+
+// hangVerdict judges generator runs that were still alive at CLITimeout.
+// Bounded progress, measured in processor time: a generator that has burnt
+// at least half of the timeout on the CPU for a package of a few dozen lines
+// (normal: a fraction of a second) is spinning -> violation, with the
+// goroutine stacks it printed on SIGQUIT as the witness. One that consumed
+// less was starved or blocked -> inconclusive. Returns true if p had such a run.
+func hangVerdict(rep *base.Report, prop string, p *runner.Prog) bool {
+	for _, g := range p.Gen {
+		if !g.TimedOut {
+			continue
+		}
+		if g.CPU < runner.CLITimeout/2 {
+			rep.Inconc(fmt.Sprintf("%s: generator still running after %v with only %v of processor time", p.Spec.Name, runner.CLITimeout, g.CPU))
+			return true
+		}
+		where := "unknown"
+		// first frame of the main goroutine that belongs to the generator
+		if i := strings.Index(g.Stderr, "goroutine 1 "); i >= 0 {
+			blk := g.Stderr[i:]
+			if j := strings.Index(blk, "\n\n"); j >= 0 {
+				blk = blk[:j]
+			}
+			if m := regexp.MustCompile(`github\.com/mazrean/kessoku/[^\s(]*\.(\w+)\(`).FindStringSubmatch(blk); m != nil {
+				where = m[1]
+			}
+		}
+		f := withSpec(p)
+		f["generator-stacks.txt"] = g.Stderr
+		rep.Violate(base.Violation{Sig: prop + "/generator-does-not-terminate/" + where,
+			What:  fmt.Sprintf("%s (features %v): generator neither accepts nor refuses: killed after %v having consumed %v of processor time, main goroutine in %s", p.Spec.Name, p.Spec.Features, runner.CLITimeout, g.CPU.Round(time.Second), where),
+			Files: f})
+		return true
+	}
+	return false
 }
